@@ -101,6 +101,10 @@ type clu struct {
 	col      models.Collection
 	maxLimit int
 	ports    []int
+	// fault clusters (net=ctl): the harness owns the transport of every node
+	fnets   []*fnet
+	recs    []*rec
+	retries int
 }
 
 func freePorts(n int) []int {
@@ -147,13 +151,44 @@ func portsFree(ports []int) bool {
 	return true
 }
 
-func newCluster(servers, maxShard, maxLimit int, ports []int, useed uint64) *clu {
+// retries > 0: a fault cluster (RpcTimeout 1 s, RpcRetries retries, RPC served through faultnet.go)
+func newCluster(servers, maxShard, maxLimit int, ports []int, useed uint64, retries int) *clu {
 	dir, err := os.MkdirTemp(tmpBase, "c17-")
 	if err != nil {
 		panic(err)
 	}
-	c := &clu{dir: dir, maxLimit: maxLimit}
-	if len(ports) != servers || !portsFree(ports) {
+	c := &clu{dir: dir, maxLimit: maxLimit, retries: retries}
+	var lns []net.Listener
+	if retries > 0 {
+		// fault cluster: the harness owns the listeners, so it opens them first and keeps them (no
+		// window in which somebody else could take a port); recorded ports are reused if still free
+		ok := len(ports) == servers
+		for i := 0; ok && i < servers; i++ {
+			l, err := net.Listen("tcp", "127.0.0.1:"+strconv.Itoa(ports[i]))
+			if err != nil {
+				ok = false
+				break
+			}
+			lns = append(lns, l)
+		}
+		if !ok {
+			if len(ports) > 0 {
+				fmt.Fprintln(os.Stderr, "c17: recorded ports are not free, shard owners may differ from the recording")
+			}
+			for _, l := range lns {
+				l.Close()
+			}
+			lns, ports = nil, nil
+			for i := 0; i < servers; i++ {
+				l, err := net.Listen("tcp", "127.0.0.1:0")
+				if err != nil {
+					panic(err)
+				}
+				lns = append(lns, l)
+				ports = append(ports, l.Addr().(*net.TCPAddr).Port)
+			}
+		}
+	} else if len(ports) != servers || !portsFree(ports) {
 		if len(ports) > 0 {
 			fmt.Fprintln(os.Stderr, "c17: recorded ports are not free, shard owners may differ from the recording")
 		}
@@ -166,15 +201,25 @@ func newCluster(servers, maxShard, maxLimit int, ports []int, useed uint64) *clu
 	}
 	for i, p := range ports {
 		root := fmt.Sprintf("%s/n%d", dir, i)
+		timeout, rt := 5, 1
+		if retries > 0 {
+			timeout, rt = 1, retries
+		}
 		n, err := cluster.NewNode(cluster.ClusterNodeConfig{
-			RootDir: root, Servers: append([]string{}, c.names...), RpcHost: "127.0.0.1", RpcPort: p, RpcTimeout: 5, RpcRetries: 1,
+			RootDir: root, Servers: append([]string{}, c.names...), RpcHost: "127.0.0.1", RpcPort: p, RpcTimeout: timeout, RpcRetries: rt,
 			MaxShardSize: 1 << 30, MaxShardPointCount: int64(maxShard), MaxSearchLimit: maxLimit,
 			ShardManager: cluster.ShardManagerConfig{RootDir: root, ShardTimeout: 20, MaxCacheSize: 0},
 		})
 		if err != nil {
 			panic(err)
 		}
-		if err := n.Serve(); err != nil {
+		if retries > 0 {
+			fn, rc, err := serveNode(n, lns[i])
+			if err != nil {
+				panic(err)
+			}
+			c.fnets, c.recs = append(c.fnets, fn), append(c.recs, rc)
+		} else if err := n.Serve(); err != nil {
 			panic(err)
 		}
 		c.nodes = append(c.nodes, n)
@@ -198,6 +243,10 @@ func newCluster(servers, maxShard, maxLimit int, ports []int, useed uint64) *clu
 }
 
 func (c *clu) close() {
+	for _, fn := range c.fnets {
+		fn.ln.Close()
+		fn.killAll()
+	}
 	for i, n := range c.nodes {
 		if c.alive[i] {
 			n.Close()
@@ -297,6 +346,9 @@ type op struct {
 	limit, offset            int
 	complete                 bool
 	all, succ                []int
+	// fault clusters
+	retries int    // newcluster: RpcRetries of a fault cluster (0 = ordinary cluster)
+	script  string // update / delete / search / route: fault script played by server `server` during the op
 }
 
 func fmtInts(p []int) string {
@@ -326,21 +378,34 @@ func (o op) line() string {
 	case "curate":
 		return fmt.Sprintf("curate complete=%s all=%s succ=%s", vh.B01(o.complete), fmtInts(o.all), fmtInts(o.succ))
 	case "newcluster":
-		return fmt.Sprintf("newcluster servers=%d maxshard=%d maxlimit=%d ports=%s useed=%d", o.servers, o.maxShard, o.maxLi, fmtInts(o.ports), o.useed)
+		l := fmt.Sprintf("newcluster servers=%d maxshard=%d maxlimit=%d ports=%s useed=%d", o.servers, o.maxShard, o.maxLi, fmtInts(o.ports), o.useed)
+		if o.retries > 0 {
+			l += fmt.Sprintf(" net=ctl retries=%d", o.retries)
+		}
+		return l
 	case "insert":
 		return fmt.Sprintf("insert entry=%d pts=%s", o.entry, fmtPts(o.pts))
 	case "stop":
 		return fmt.Sprintf("down server=%d", o.server)
 	case "update":
-		return fmt.Sprintf("update entry=%d pts=%s", o.entry, fmtPts(o.pts))
+		return fmt.Sprintf("update entry=%d pts=%s", o.entry, fmtPts(o.pts)) + o.faultTok()
 	case "delete":
-		return fmt.Sprintf("delete entry=%d ids=%s", o.entry, fmtInts(o.ids))
+		return fmt.Sprintf("delete entry=%d ids=%s", o.entry, fmtInts(o.ids)) + o.faultTok()
 	case "state":
 		return "state"
 	case "search":
-		return fmt.Sprintf("search entry=%d kind=%d arg=%d limit=%d offset=%d", o.entry, o.skind, o.sarg, o.limit, o.offset)
+		return fmt.Sprintf("search entry=%d kind=%d arg=%d limit=%d offset=%d", o.entry, o.skind, o.sarg, o.limit, o.offset) + o.faultTok()
+	case "route":
+		return fmt.Sprintf("route entry=%d", o.entry) + o.faultTok()
 	}
 	return "?"
+}
+
+func (o op) faultTok() string {
+	if o.script == "" {
+		return ""
+	}
+	return fmt.Sprintf(" fault=%d:%s", o.server, o.script)
 }
 
 func parseInts(s string) []int {
@@ -383,6 +448,13 @@ func parseLine(line string) (op, bool) {
 	}
 	num := func(k string) int { n, _ := strconv.Atoi(kv(k)); return n }
 	o := op{kind: toks[0]}
+	if f := kv("fault"); f != "" {
+		ab := strings.SplitN(f, ":", 2)
+		if len(ab) == 2 {
+			o.server, _ = strconv.Atoi(ab[0])
+			o.script = ab[1]
+		}
+	}
 	switch toks[0] {
 	case "curate":
 		o.complete = kv("complete") == "1"
@@ -391,6 +463,7 @@ func parseLine(line string) (op, bool) {
 		o.servers, o.maxShard, o.maxLi = num("servers"), num("maxshard"), num("maxlimit")
 		o.ports = parseInts(kv("ports"))
 		o.useed, _ = strconv.ParseUint(kv("useed"), 10, 64)
+		o.retries = num("retries")
 	case "insert":
 		o.entry, o.pts = num("entry"), parsePts(kv("pts"))
 	case "down":
@@ -400,6 +473,8 @@ func parseLine(line string) (op, bool) {
 	case "delete":
 		o.entry, o.ids = num("entry"), parseInts(kv("ids"))
 	case "state":
+	case "route":
+		o.entry = num("entry")
 	case "search":
 		o.entry, o.skind, o.sarg, o.limit, o.offset = num("entry"), num("kind"), num("arg"), num("limit"), num("offset")
 	default:
@@ -615,10 +690,21 @@ type runner struct {
 	lines []string
 	where map[int]int // id → shard index (from the dumps)
 	fails int
+	// fault clusters run side by side: their lines and failures are buffered and flushed in order
+	buffered bool
+	buf      []emitted
+	fbuf     []vh.OracleFailure
+}
+
+type emitted struct {
+	kind, line, impl string
+	nontrivial       bool
 }
 
 func (r *runner) fail(sig, what string) {
-	if r.out != nil {
+	if r.buffered {
+		r.fbuf = append(r.fbuf, vh.OracleFailure{Signature: sig, What: what, Replay: strings.Join(r.lines, "\n")})
+	} else if r.out != nil {
 		r.out.Fail(sig, what, strings.Join(r.lines, "\n"))
 	}
 	r.fails++
@@ -662,7 +748,9 @@ func showFailed(fp []cluster.FailedPoint) string {
 
 func (r *runner) emit(kind, line, impl string, nontrivial bool) {
 	r.lines = append(r.lines, line)
-	if r.out != nil {
+	if r.buffered {
+		r.buf = append(r.buf, emitted{kind, line, impl, nontrivial})
+	} else if r.out != nil {
 		r.out.Emit(kind, line, impl, nontrivial)
 	} else {
 		fmt.Println(impl)
@@ -694,6 +782,10 @@ func (r *runner) exec(o op) {
 	}()
 	c := r.c
 	multi := c != nil && len(c.col.ShardIds) > 1
+	if o.script != "" || o.kind == "route" {
+		r.execFault(o)
+		return
+	}
 	switch o.kind {
 	case "curate":
 		var all, succ []uuid.UUID
@@ -727,7 +819,7 @@ func (r *runner) exec(o op) {
 		if r.c != nil {
 			r.c.close()
 		}
-		r.c = newCluster(o.servers, o.maxShard, o.maxLi, o.ports, o.useed)
+		r.c = newCluster(o.servers, o.maxShard, o.maxLi, o.ports, o.useed, o.retries)
 		o.ports = r.c.ports
 		r.where = map[int]int{}
 		r.lines = nil
@@ -1109,11 +1201,15 @@ func genScenario(rng *vh.Rng, big bool) []op {
 }
 
 func main() {
+	// own network namespace (or, failing that, an exclusive lock): no port can be taken by, and no
+	// connection can come from, another run on this machine; recorded ports of a replay are always free
+	vh.IsolateNet("c17")
 	zerolog.SetGlobalLevel(zerolog.Disabled)
 	seed := flag.Uint64("seed", 1, "PRNG seed")
 	n := flag.Int("n", 40, "scenarios")
 	nbig := flag.Int("big", 3, "scenarios with large shards (per-shard limit heuristic binds)")
 	ncur := flag.Int("curate", 400, "direct calls of curateFailedPoints")
+	nfault := flag.Int("fault", 8, "random fault scenarios (one shard server hangs / dies mid-call / leaves stale connections)")
 	dir := flag.String("out", "", "output directory")
 	replay := flag.String("replay", "", "replay the op lines of this file against the implementation (prints impl answers)")
 	flag.Parse()
@@ -1141,6 +1237,15 @@ func main() {
 		r.exec(c)
 	}
 	cfgs := map[string]int{}
+	// fault scenarios: the corpus of minimised witnesses first, then random ones
+	fscs := faultCorpus()
+	for i := 0; i < *nfault; i++ {
+		fscs = append(fscs, genFaultScenario(rng, i))
+	}
+	for k, v := range runFaultScenarios(o, fscs) {
+		cfgs[k] += v
+	}
+	r.lines = nil
 	for i := 0; i < *n+*nbig; i++ {
 		ops := genScenario(rng, i >= *n)
 		for _, p := range ops {
@@ -1150,6 +1255,9 @@ func main() {
 	}
 	if r.c != nil {
 		r.c.close()
+	}
+	for _, d := range abandoned.dirs {
+		os.RemoveAll(d)
 	}
 	o.Close(map[string]any{
 		"rule":           "one case = one cluster-level call (insert / update / delete / search through some entry node, a shard dump, or a direct curateFailedPoints call); non-trivial = distinct op line on a collection with at least two shards (curate: both lists non-empty)",
